@@ -12,10 +12,10 @@ from vlib import ROOT, REPO, sh2, log
 KNOWN_ESC = "merge-escaped-name-order"
 
 
-def run_lines(exe, lines, timeout=1500, env=None):
+def run_lines(exe, lines, timeout=1500, env=None, mode=None):
     path = os.path.join(vlib.BUILD, "C12", "in_%d.txt" % os.getpid())
     open(path, "w").write("\n".join(lines) + "\n")
-    rc, out, err = sh2([exe, path], timeout=timeout, env=env)
+    rc, out, err = sh2([exe, path] + ([mode] if mode else []), timeout=timeout, env=env)
     os.remove(path)
     res = out.splitlines()
     if rc != 0 or len(res) != len(lines):
@@ -117,6 +117,24 @@ def any_escape(t):
     return any(needs_escape(n[0]) or (n[1] == 1 and any_escape(n[5])) for n in t)
 
 
+def subtree_at(t, comps):
+    for n in t:
+        if n[0] == comps[0]:
+            return n[5] if len(comps) == 1 else subtree_at(n[5], comps[1:])
+    return None
+
+
+def same_tree(a, b, loose):
+    """equality of trees; `loose`: the metadata tag (hash of the whole node) is not compared on nodes whose
+    content list differs from... (repair rewrites size and content of marked files)"""
+    if len(a) != len(b): return False
+    for x, y in zip(a, b):
+        if (x[0], x[1], x[2], x[4]) != (y[0], y[1], y[2], y[4]): return False
+        if x[3] != y[3] and not (loose and x[0] in loose): return False
+        if x[1] == 1 and not same_tree(x[5], y[5], loose): return False
+    return True
+
+
 def sorted_rec(t):
     ns = [n[0] for n in t]
     return all(a < b for a, b in zip(ns, ns[1:])) and all(sorted_rec(n[5]) for n in t if n[1] == 1)
@@ -143,7 +161,23 @@ def gen_tree(rng, depth, pool, tagc, mt):
     return t
 
 
+def shuffle_rec(rng, t, ctr):
+    """unsorted variant of a tree: every level shuffled, all mtimes distinct (no ties)"""
+    t = list(t); rng.shuffle(t)
+    out = []
+    for (n, k, m, tg, c, s) in t:
+        ctr[0] += 1
+        out.append((n, k, ctr[0], tg, c, shuffle_rec(rng, s, ctr) if k == 1 else []))
+    return out
+
+
 def gen_m_case(rng):
+    if rng.random() < 0.12:
+        # inputs NOT sorted in the compared order (what backup-written trees were for the unfixed merge):
+        # only the literal loop model is compared with the implementation here
+        mode, ts, _ = gen_m_case(rng)
+        ctr = [100]
+        return 0, [shuffle_rec(rng, t, ctr) for t in ts], False
     k = rng.choice([0, 1, 1, 2, 2, 2, 3, 3, 4, 6])
     pool = rng.sample(NAMES, rng.choice([2, 3, 4, 6]))
     if rng.random() < 0.3:      # a pair whose order flips under escaping
@@ -153,7 +187,7 @@ def gen_m_case(rng):
     ts = [gen_tree(rng, rng.choice([0, 1, 2, 3]), pool, tagc, mt) for _ in range(k)]
     if k >= 2 and rng.random() < 0.2:
         ts[1] = ts[0]                      # merging a tree with itself
-    return rng.choice([0, 0, 0, 1, 2, 3]), ts
+    return rng.choice([0, 0, 0, 1, 2, 3]), ts, True
 
 
 def kv(line):
@@ -206,24 +240,40 @@ def run(ctx):
                 mode, k = int(toks[1]), int(toks[2]); i = 3; ts = []
                 for _ in range(k):
                     t, i = parse_tree(toks, i); ts.append(map_names(t, lambda h: bytes.fromhex(h)))
-                mcases.append((mode, ts))
+                mcases.append((mode, ts, all(sorted_rec(t) for t in ts)))
     while len(mcases) < nm:
         mcases.append(gen_m_case(rng))
     hexn = lambda s: s.hex()
-    ilines = ["M %d %d %s" % (mode, len(ts), " ".join(fmt_tree(t, hexn) for t in ts)) for mode, ts in mcases]
+    ilines = ["M %d %d %s" % (mode, len(ts), " ".join(fmt_tree(t, hexn) for t in ts)) for mode, ts, _ in mcases]
     iout = run_lines(impl, ilines)
     mlines, ranks = [], []
-    for mode, ts in mcases:
+    for mode, ts, _ in mcases:
         ns = set()
         for t in ts: all_names(t, ns)
         order = sorted(ns)
         rk = {n: i for i, n in enumerate(order)}
         ranks.append(order)
-        for s in (0, 1):
+        for s in (0, 1, 2):
             mlines.append("%d %d %d %s" % (mode, s, len(ts), " ".join(fmt_tree(t, lambda n: str(rk[n])) for t in ts)))
     mout = run_lines(model, mlines) if model else None
-    for ci, ((mode, ts), io) in enumerate(zip(mcases, iout)):
+    NS = 3
+    def model_tree(ci, s_):
+        mo = mout[NS * ci + s_]
+        if not mo.startswith("ok"): return None
+        return map_names(parse_tree(mo.split()[2:], 0)[0], lambda i: ranks[ci][int(i)])
+    for ci, ((mode, ts, is_sorted), io) in enumerate(zip(mcases, iout)):
         st = {}
+        if not is_sorted:
+            # outside the premise of the theorems: only the literal loop model vs the implementation
+            hist["M_unsorted_inputs"] = hist.get("M_unsorted_inputs", 0) + 1
+            if mout:
+                rt = map_names(parse_tree(io.split()[1:], 0)[0], lambda h: bytes.fromhex(h) if h != "-" else b"") if io.startswith("ok") else None
+                lp = model_tree(ci, 2)
+                if rt is None or lp != rt:
+                    mism.append((ilines[ci], mout[NS * ci + 2], "literal loop model differs from tree::merge_trees on unsorted inputs; impl: " + io[:300]))
+                elif len([n[0] for n in rt]) != len(set(n[0] for n in rt)):
+                    hist["M_unsorted_duplicates_reproduced"] = hist.get("M_unsorted_duplicates_reproduced", 0) + 1
+            continue
         if not io.startswith("ok"):
             viol.append(("tree::merge_trees fails on well-formed trees: " + io.split()[0], ilines[ci], io, None)); continue
         rt, _ = parse_tree(io.split()[1:], 0)
@@ -236,27 +286,29 @@ def run(ctx):
             viol.append(("merged tree is not the union of the inputs with conflicts resolved by the ordering", ilines[ci], io + " :: " + e,
                          KNOWN_ESC if any(any_escape(t) for t in ts) else None)); continue
         if mout:
-            order = ranks[ci]
             res = []
-            for s in (0, 1):
-                mo = mout[2 * ci + s]
-                if not mo.startswith("ok wf=1"):
-                    res.append(None); continue
-                mt_, _ = parse_tree(mo.split()[2:], 0)
-                res.append(map_names(mt_, lambda i: order[int(i)]))
+            for s in (0, 1, 2):
+                mo = mout[NS * ci + s]
+                res.append(model_tree(ci, s) if mo.startswith("ok wf=1") else None)
             if res[0] is None:
-                mism.append((ilines[ci], mout[2 * ci], "generated case is not well-formed for the model")); continue
-            for s in (0, 1):
+                mism.append((ilines[ci], mout[NS * ci], "generated case is not well-formed for the model")); continue
+            for s in (0, 1, 2):
                 e2 = oracle_merge(mode, ts, res[s], {})
                 if e2 is not None:
-                    mism.append((ilines[ci], mout[2 * ci + s], "extracted model violates the declarative oracle: " + e2))
+                    mism.append((ilines[ci], mout[NS * ci + s], "extracted model violates the declarative oracle: " + e2))
             if rt != res[0] and rt != res[1] and not st.get("tie"):
-                mism.append((ilines[ci], mout[2 * ci], "impl: " + io))
+                mism.append((ilines[ci], mout[NS * ci], "impl: " + io))
+            # tested refinement: the loop as written = the abstract k-way merge on sorted inputs
+            if res[2] != res[0] and not st.get("tie"):
+                mism.append((ilines[ci], mout[NS * ci + 2], "literal loop model differs from the abstract merge on a sorted tie-free case"))
+            # the literal loop with std's BinaryHeap algorithm must reproduce the implementation exactly, ties included
+            if rt == res[2]: hist["M_equal_loop_model"] = hist.get("M_equal_loop_model", 0) + 1
+            else: mism.append((ilines[ci], mout[NS * ci + 2], "literal loop model (exact BinaryHeap) differs from tree::merge_trees; impl: " + io[:300]))
             if rt == res[0]: hist["M_equal_model_sched_id"] = hist.get("M_equal_model_sched_id", 0) + 1
             elif rt == res[1]: hist["M_equal_model_sched_rev"] = hist.get("M_equal_model_sched_rev", 0) + 1
             else: hist["M_tie_other_choice"] = hist.get("M_tie_other_choice", 0) + 1
         if len(samples) < 2 and st.get("type_clash") and len(ilines[ci]) < 400:
-            samples.append({"case": ilines[ci], "impl": io, "model": mout[2 * ci] if mout else None})
+            samples.append({"case": ilines[ci], "impl": io, "model": mout[NS * ci] if mout else None})
 
     # ------------------------------------------------------------ e2e
     def seeds(n): return [rng.randrange(1, 2 ** 40) for _ in range(n)]
@@ -281,6 +333,48 @@ def run(ctx):
     for i in range(0, len(elines), per):
         eout += run_lines(impl, elines[i:i + per], timeout=1200)
     glines = []
+    wr_jobs = []          # (mode, case, model line, expected, name order, loose names)
+    def tie_modifier(m, ln, segs, jobs):
+        key = lambda h: bytes.fromhex(h) if h != "-" else b""
+        O, N, U, L, X = [], {}, {}, [], []
+        for sg in segs:
+            tk = sg.split()
+            if tk[0] == "O": O.append(map_names(parse_tree(tk[1:], 0)[0], key))
+            elif tk[0] == "N" and m == "W": N[0] = map_names(parse_tree(tk[1:], 0)[0], key)
+            elif tk[0] == "N": N[int(tk[1])] = map_names(parse_tree(tk[2:], 0)[0], key)
+            elif tk[0] == "U": U[int(tk[1])] = tk[3:3 + int(tk[2])]
+            elif tk[0] == "L": L = tk[2:2 + int(tk[1])]
+            elif tk[0] == "X": X = tk[2:2 + int(tk[1])]
+        ns = set()
+        for t in O + list(N.values()): all_names(t, ns)
+        marked = {}
+        if m == "R":
+            fl = set()
+            def files(t):
+                for n in t:
+                    if n[1] == 0: fl.add(n[0])
+                    if n[1] == 1: files(n[5])
+            for t in O: files(t)
+            marked = {n: n + b".repaired" for n in fl}
+            ns.update(marked.values())
+        order = sorted(ns); rk = {n: i for i, n in enumerate(order)}
+        rkf = lambda n: str(rk[n])
+        if m == "W":
+            xs = []
+            for p_ in X:
+                comps = [rk[bytes.fromhex(c)] for c in p_.split("/")]
+                xs.append("%d %s" % (len(comps), " ".join(map(str, comps))))
+            jobs.append(("rw", ln, "%d %s %s" % (len(xs), " ".join(xs), fmt_tree(O[0], rkf)), (O[0], N.get(0)), order, None))
+        else:
+            unread = []
+            for oi, ps in U.items():
+                for p_ in ps:
+                    v = O[oi] if p_ == "-" else subtree_at(O[oi], [bytes.fromhex(c) for c in p_.split("/")])
+                    if v is not None and v not in unread: unread.append(v)
+            head = "%d %s %d %s %d %s" % (len(L), " ".join(L), len(unread), " ".join(fmt_tree(v, rkf) for v in unread),
+                                          len(marked), " ".join("%d %d" % (rk[a], rk[b]) for a, b in sorted(marked.items())))
+            for oi, t in enumerate(O):
+                jobs.append(("rp", ln, head + " " + fmt_tree(t, rkf), (t, N.get(oi)), order, set(marked.values())))
     for ln, out in zip(elines, eout):
         m = ln[0]
         hist["e2e_" + m] = hist.get("e2e_" + m, 0) + 1
@@ -311,8 +405,13 @@ def run(ctx):
                 ns = set()
                 for t in ts + [res]: all_names(t, ns)
                 order = sorted(ns); rk = {n: i for i, n in enumerate(order)}
-                glines.append((ln, order, ts, res, st, "0 0 %d %s" % (len(ts), " ".join(fmt_tree(t, lambda n: str(rk[n])) for t in ts))))
+                body = "%d %s" % (len(ts), " ".join(fmt_tree(t, lambda n: str(rk[n])) for t in ts))
+                glines.append((ln, order, ts, res, st, "0 0 " + body, "0 2 " + body))
         else:
+            segs = [x.strip() for x in out.split("|")]
+            out = segs[0]
+            if m in "WR" and len(segs) > 1:
+                tie_modifier(m, ln, segs[1:], wr_jobs)
             d = kv(out)
             for k_ in ("coll", "coll_tree", "prepop", "excluded", "marked", "repaired", "tree_pack", "unsorted", "present_before"):
                 if k_ in d and d[k_].isdigit():
@@ -329,7 +428,13 @@ def run(ctx):
                 samples.append({"case": ln, "impl": out[:400]})
     if glines and model:
         mo = run_lines(model, [g[5] for g in glines])
-        for (ln, order, ts, res, st, ml), o in zip(glines, mo):
+        mo2 = run_lines(model, [g[6] for g in glines])
+        for (ln, order, ts, res, st, ml, ml2), o, o2 in zip(glines, mo, mo2):
+            lt = map_names(parse_tree(o2.split()[2:], 0)[0], lambda i: order[int(i)]) if o2.startswith("ok") else None
+            if lt != res:
+                mism.append((ln, o2[:300], "merge_snapshots result differs from the literal loop model (exact BinaryHeap)"))
+            else:
+                hist["G_equal_loop_model"] = hist.get("G_equal_loop_model", 0) + 1
             if not o.startswith("ok wf=1"):
                 mism.append((ln, o, "model rejects inputs that python finds sorted")); continue
             mt_, _ = parse_tree(o.split()[2:], 0)
@@ -338,10 +443,28 @@ def run(ctx):
                 mism.append((ln, o, "merge_snapshots result differs from the extracted model (no ties)"))
             hist["G_equal_model" if mt_ == res else "G_tie_other_choice"] = hist.get("G_equal_model" if mt_ == res else "G_tie_other_choice", 0) + 1
 
+    # TreeModifier models (rewrite, repair) against the trees the implementation wrote
+    if model:
+        for mode_ in ("rw", "rp"):
+            js = [j for j in wr_jobs if j[0] == mode_]
+            if not js: continue
+            mo = run_lines(model, [j[2] for j in js], mode=mode_)
+            for (md, ln, ml, (orig, new), order, loose), o in zip(js, mo):
+                tk = o.split()
+                hist["%s_model_%s" % (md, tk[1] if len(tk) > 1 else "?")] = hist.get("%s_model_%s" % (md, tk[1] if len(tk) > 1 else "?"), 0) + 1
+                if tk[:2] == ["ok", "changed"]:
+                    mt_ = map_names(parse_tree(tk[2:], 0)[0], lambda i: order[int(i)])
+                    good = new is not None and same_tree(mt_, new, loose)
+                elif tk[:2] == ["ok", "unchanged"]:
+                    good = new is None or same_tree(orig, new, None)
+                else:
+                    good = False
+                if not good:
+                    mism.append((ln, o[:300], "%s model differs from the tree the implementation wrote (%s)" % (md, "no new tree" if new is None else "new tree")))
     cov.update({"evaluations": len(mcases) + len(elines), "distinct_nontrivial": len(nontriv),
                 "rule": "M: k in 0..6 hand-built trees over a small name pool (overlapping names; file/dir/symlink/fifo under one name; mtimes from 1, 2, 4 or 9 values incl. None; depth <= 3; a tree merged with itself) x cmp in {mtime, tag, always-Equal, dirs-first}; non-trivial = some name occurs in two inputs.  e2e: C copy (src/dst with different key, compression, pack sizes 1 B..400 kB, two overlapping copy runs, optional pre-populated destination, optional data blob = empty tree blob and data blob = stored non-empty tree blob), G merge_snapshots of 2..4 real backups with clashing names/types and 3 mtime values, W rewrite with 0..3 exclude globs (literal path, bare name, prefix*, path/*), R repair_snapshots on the intact repository and after removing one data or tree pack + repair_index; non-trivial = collision/pre-populated, clash, something excluded, something damaged",
                 "samples": samples, "distribution": hist,
-                "traces_validated_against_impl": len(mcases) + len(glines),
+                "traces_validated_against_impl": len(mcases) + len(glines) + len(wr_jobs),
                 "disagreements_checked": len(mism) + len(viol), "model_impl_mismatches": len(mism), "oracle_violations": len(viol)})
     for what, case, detail, sig in viol[:25]:
         ctx.violation(what, {"case": case, "detail": detail,
